@@ -24,15 +24,30 @@ Proof.
 Qed.
 Print Assumptions C08_no_result_before_rejection.
 
-Theorem C08_skeleton_count : List.length skeletons = 15%nat.
+Theorem C08_skeleton_count : List.length skeletons = 16%nat.
 Proof. vm_compute. reflexivity. Qed.
 Print Assumptions C08_skeleton_count.
+
+(* ZIP route: the with-block up to the second loop (flag check of EVERY member) delivers nothing, in any
+   execution; together with the #pass1-member skeleton above (a flagged non-directory member is never
+   admitted to the work list of the second loop) this is the ordering half of C08_zip_sound_any_member *)
+Theorem C08_zip_pass1_delivers_nothing :
+  forall n o, run zip_prefix n o -> n = O.
+Proof. intros n o R. apply (guarded_sound zip_prefix n o); [vm_compute; reflexivity | exact R]. Qed.
+Print Assumptions C08_zip_pass1_delivers_nothing.
+
+Theorem C08_zip_prefix_has_the_guard : count_guard zip_prefix = 1%nat /\ count_yield zip_prefix = 0%nat.
+Proof. vm_compute. split; reflexivity. Qed.
+Print Assumptions C08_zip_prefix_has_the_guard.
 
 (* the constants of today's source are the ones the models use *)
 Definition subset (a b : list str) : bool := forallb (fun x => mem_str x b) a.
 Definition set_eqb (a b : list str) : bool := subset a b && subset b a.
 Definition constants_ok : bool :=
-  set_eqb g_enc_streams ENC_STREAMS && set_eqb g_ppt_streams PPT_STREAMS
+  set_eqb g_enc_streams ENC_STREAMS
+  (* is_ppt_encrypted: exactly the modelled names; "Current User" only together with the header-token test *)
+  && subset PPT_STREAMS g_ppt_streams && subset g_ppt_streams (PPT_STREAMS ++ [s "Current User"])%list
+  && Bool.eqb g_ppt_token_aware (mem_str (s "Current User") g_ppt_streams)
   && existsb (N.eqb FILEPASS) g_xls_ints
   && Nat.eqb g_min_doc_size MIN_DOC_SIZE
   && (existsb (N.eqb 42476%N) g_doc_magics && existsb (N.eqb 42460%N) g_doc_magics && Nat.eqb (List.length g_doc_magics) 2%nat)
